@@ -82,4 +82,90 @@ PROPS["C06"] = {
         "timeout": {"quick": 240, "thorough": 2400},
     }
 
+PROPS["C10"] = {
+        "modules": ["Hertz.Props.C10"],
+        "rule": "Sequential scripts on one HostClient (every single request of method x 10 faults x 3 ctx modes x dial-failure for MaxConns 1..2 (thorough 1..4), wait off/on; every pair of requests for MaxConns=2; random scripts of 3..8 requests): the Lean program model predicts outcome class, gauges and the complete hook trace. "
+                "Concurrent runs (2..4 goroutines x 1..3 requests, MaxConns 1..4, wait on/off, fault per exchange from {ok, ok+close, silent close while idle (write ok / write fails), close before first byte, mid-header, mid-body, stall, stall mid-body, garbage}, dial errors, ctx cancelled before/after send, optional 3ms idle reaper, seeded yields at the lock boundaries): the recorded lock-region trace must be accepted by Pool.step with equal (connsCount, len(conns), connsWait.len()) and the quiescent gauges must match. Plus the directed stale-waiter schedule.",
+        "exhaustive_note": "single requests and pairs of requests over the whole request alphabet are enumerated completely (sequential); concurrent schedules are sampled",
+        "level_text": "Pool bookkeeping modelled at lock-region granularity and proved in Lean for every schedule of any length and any number of callers: connsCount conservation, connsCount <= MaxConns, exclusivity of every connection, quiescence (all calls returned => every connection idle or closed, nothing owed, no live waiter), release only after a clean exchange, non-idempotent requests attempted once, retries only on ErrBadPoolConn from pooled connections. Model held to the code by trace validation of the real HostClient through hook H2 and by exact trace prediction for sequential runs. The pending-request gauge is proved zero at quiescence for every schedule (the early ctx return of Do decrements since the F10 fix; the decrement-before-every-return fact is regenerated from the source). One clause is false of the code and kept as a negated witness theorem with a partial version: the waiter queue length at quiescence (stale wantConn, known finding F16).",
+        "level_note": "Trusted: Lean kernel, hook H2 (add-only verifPoint lines, hooks/client.patch), harness/driver, the in-memory peer. Response-belongs-to-caller and the timeout bound are runtime checks in the harness (echoed request id, exclusive-use flag, duration), not Lean theorems. Custom RetryIfFunc, streaming bodies, upgrade, SetMaxConns at run time and CloseIdleConnections are outside the model.",
+        "assumptions": ["the Dialer returns a fresh connection on every successful dial", "MaxConns is not changed while requests run", "default retry policy (RetryIfFunc == nil), no response body streaming, no protocol upgrade", "wantConn.waiting() may lag behind the wantConn.mu linearisation (modelled as a nondeterministic pop target)"],
+        "timeout": {"quick": 120, "thorough": 1500},
+        "search_timeout": 120,
+    }
+
+PROPS["C12"] = {
+        "modules": ["Hertz.Props.C12"],
+        "rule": "Every chain of 1..5 (quick) / 1..7 (thorough) handlers over the seven behaviours {return, Next, Abort, Next-Abort, "
+                "Abort-Next, Next-Next, AbortWithStatus}, each registered through Engine.Use / Group / Handle in rotating layouts and "
+                "served by Engine.ServeHTTP, and again on a bare context; every group nesting of depth 0..2 (quick; 0..3 thorough, depth 3 "
+                "sampled in quick) x {middleware at creation, Use before the child group, Use after the child group, Use after the route} "
+                "per level x {matched, unmatched, wrong method, missing Host}, with NoRoute/NoMethod and sibling groups; sampled long "
+                "chains (30..62 handlers, up to 100 Next calls) into and below the region where the int8 index saturates at 127 (F11 regression); chains of 63..132 handlers via "
+                "SetHandlers; random registration histories; a malformed stream (missing groups, duplicate routes, empty handler "
+                "lists, oversized Use, reused labels, RouterGroup.Use on the engine).",
+        "exhaustive_note": "chains over the seven behaviours up to the stated length and the nesting bit-patterns up to the stated depth are enumerated completely; the rest is sampled",
+        "level_text": "Onion order, at-most-once entry in registration order, no entry after Abort and normal termination (no panic, index saturating at MaxInt8) proved in Lean for every chain of at most AbortIndex handlers and every script of Next/Abort/AbortWithStatus calls, unconditionally; group/engine chain assembly proved to be outermost-first with the route's own handlers last and 404/405 chains starting with the engine middleware; every registered chain proved shorter than AbortIndex (constant and the statements of Next/Abort/combineHandlers/Use/... regenerated from the Go source). Model held to RequestContext.Next/Abort and Engine.ServeHTTP by differential runs with instrumented handlers; the trace monitor is evaluated on the implementation's own traces.",
+        "level_note": "Trusted: Lean kernel, translator for AbortIndex, harness/driver. The radix tree is not part of this model (static, distinct paths only; C06 covers lookup).",
+        "assumptions": ["handlers touch the index only through Next/Abort/AbortWithStatus (no SetIndex, no handler panics of their own)",
+                        "routes are static and pairwise distinct, so route lookup is equality (C06)",
+                        "a fresh RequestContext starts with index = -1 (app.NewContext / Reset)"],
+        "timeout": {"quick": 300, "thorough": 1500},
+    }
+
+PROPS["C20"] = {
+        "modules": ["Hertz.Props.C20"],
+        "rule": "Every operator sequence of length <=3 (quick) / <=4 (thorough) over the 13 operators, printed without parentheses: "
+                "tree shape built by the real parseExpr vs the model, and verdict of binding's validator on run-time generated struct "
+                "types vs an independent precedence-climbing evaluator; 20 expression templates x every small value of the tagged field "
+                "(ints, floats, strings, bools, nil pointers, nil/empty/non-empty slices); random well-typed trees to depth 4 (6) printed "
+                "with minimal and with redundant parentheses and random spacing; random untyped trees; token soup and damaged expressions.",
+        "exhaustive_note": "operator sequences up to the stated length and the template x value table are enumerated completely; the rest is sampled",
+        "level_text": "Proved in Lean for all operand/operator sequences of any length and any operator semantics: the rotation of "
+                      "sortPriority terminates, keeps the token order, never panics, and its result is the unique precedence tree "
+                      "(documented priorities, left-to-right associativity) = the tree of an independent precedence parser; priority table, "
+                      "operator lexer and the text of the three rotation functions regenerated from expr.go on every run. Lexer, coercions, "
+                      "float64 arithmetic, len/in/regexp and the accept rule of validator.Validate are an executable Lean model compared with "
+                      "the real code on every case; the expected verdict comes from an independent evaluator in the harness.",
+        "level_note": "Not proved: float64 arithmetic, strconv/fmt conversions and regexp (compared, on small values / a pattern subset); "
+                      "absence of panics is proved for every operator node and every operand-node constructor (after the two repairs in /repo); "
+                      "its lifting through the parser's recursion to whole expressions is open (TODO-OPEN in Props/C20.lean) and is covered by "
+                      "the differential runs. One recorded finding: a nil-valued expression is accepted.",
+        "assumptions": ["Go's float64, strconv.ParseFloat, fmt.Sprint and regexp are the reference for the compared residue",
+                        "reflect.StructOf types behave like declared struct types for the tag reader"],
+        "timeout": {"quick": 300, "thorough": 2400},
+        "trusted": ["independent expression evaluator in harness/c20.go (expected verdicts)"],
+    }
+
+PROPS["C08"] = {
+        "modules": ["Hertz.Props.C08"],
+        "rule": "Real Engine (StaticFS, ctx.File, PathRewrite routes) over a temp directory, one H1 request per in-memory connection: "
+                "file lengths 0..12 (quick) / 0..20 (thorough) x every syntactic Range form with numbers 0..14 / 0..22 (a-b, a-, -n) plus 66 "
+                "malformed / non-numeric / multi-range / overflowing variants and the empty value x GET/HEAD x AcceptByteRange on/off; files of "
+                "8191..8194 and 20000 bytes (MaxSmallFileSize +-1) through all three route kinds with boundary ranges; index.html and generated "
+                "directory index pages; Compress with and without Accept-Encoding; missing files; an expiring file cache; random interleavings over "
+                "shared engines / cached files / pooled readers; ~50 listed + random traversal paths against the StaticFS routes. Direct calls: bytesconv.ParseUint (short strings "
+                "exhaustively, 64-bit boundary values, random 17-22 digit strings), app.ParseByteRange (same forms x lengths 0..12 and 14 huge lengths), "
+                "ResponseHeader.SetContentRange.",
+        "exhaustive_note": "lengths x range forms x method x AcceptByteRange are enumerated completely up to the stated bounds; the rest is sampled",
+        "level_text": "ParseUint (overflow test included), ParseByteRange, AppendUint, SetContentRange, both UpdateByteRange implementations and the "
+                      "range part of fsHandler.handleRequest are modelled in Lean function by function (slices and indexes checked, AppendUint's panic "
+                      "kept). Proved at full strength for all header values, file contents, lengths < 2^63, methods, reader kinds and AcceptByteRange "
+                      "settings: ParseUint accepts exactly the digit strings below 2^63 with their value; ParseByteRange = RFC 7233 single-range rule "
+                      "(headers naming a position >= 2^63 are rejected), accepted ranges lie inside the file and are the RFC range; the decision never "
+                      "panics or delivers a short body, Content-Length = last-first+1 = |body|, Content-Range reads back as (first,last,length), body = "
+                      "that slice, HEAD = GET headers without body, small/big/dir-index readers agree. Former defect witnesses (bytes=-1 on an empty "
+                      "file, bytes=-0, the 20-digit wrap-around) are regression examples and replayed against the Go code on every run. Statement "
+                      "skeletons of the seven Go functions are regenerated from source and pinned by model_matches_gen.",
+        "level_note": "Partial: open/stat/cache/ref-counts, compression, index page generation, If-Modified-Since and the OS are exercised by the "
+                      "correspondence only; path containment is C07's theorem and is only exercised here, for StaticFS routes (ctx.File has no root). "
+                      "Trusted: Lean kernel, gen/c08.go (go/ast statement skeletons), harness/driver.",
+        "assumptions": ["file length is a Go int (< 2^63)",
+                        "an invalid Range value (wrong unit, several ranges, last < first, non-digits) may be answered 416 instead of being ignored",
+                        "a position >= 2^63 in a Range header may be answered 416",
+                        "os.File.ReadAt/Seek and io.LimitedReader deliver the bytes of the file at the given offsets",
+                        "the harness is the oracle for which file a plain request path names"],
+        "timeout": {"quick": 300, "thorough": 1500},
+    }
+
 NOT_CLAIMED = {}
